@@ -374,6 +374,14 @@ func H05() {
 	if big {
 		order = binary.BigEndian
 	}
+	if vParam("hist") == 1 {
+		// call history: an Encode that fails after it has staged records (a
+		// string that is not valid UTF-8) must leave nothing behind
+		g, _ := NewFile(FileTypeActivity, NewHeader(V20, true))
+		g.FileId.ProductName = "\xff\xfe"
+		var sink bytes.Buffer
+		vAssert(Encode(&sink, g, order) != nil, "C05.harness.history-encode-fails")
+	}
 	err = Encode(&w, f, order)
 	hasStrArray := false
 	for _, s := range append(sets, sets2...) {
@@ -511,6 +519,21 @@ func vSameDecoded(gmn MesgNum, got, orig reflect.Value, skip []string) {
 				}
 			}
 			vAssert(ok, "C06.field.array-prefix")
+			// what follows the values put in is padding: the element type's invalid value
+			if ok && a.Len() > b.Len() {
+				bt := getFieldBySindex(i, profileFieldDef(gmn)).t.BaseType()
+				inv := vInvalidBits(bt)
+				pad := true
+				for j := b.Len(); j < a.Len(); j++ {
+					switch e := a.Index(j); e.Kind() {
+					case reflect.Uint8, reflect.Uint16, reflect.Uint32, reflect.Uint64:
+						pad = pad && e.Uint() == inv
+					case reflect.Int8, reflect.Int16, reflect.Int32, reflect.Int64:
+						pad = pad && e.Int() == vSext(inv, bt.Size())
+					}
+				}
+				vAssert(pad, "C06.field.array-rest-is-invalid-padding")
+			}
 		case reflect.Struct:
 			if ta, isT := a.Interface().(time.Time); isT {
 				tb := b.Interface().(time.Time)
